@@ -33,6 +33,7 @@ CONF = {
     "trace": {"module": "QuotaTopologyTrace", "cfg": "Trace.cfg"},
     "signature": sig,
     "assumptions": [
+        "the built-in group names (koordinator-default-quota / koordinator-system-quota) are generated like any other quota name; a panic of the webhook on a request is recovered by the harness and logged as an event the specification rejects",
         "feature gates at defaults (ElasticQuotaEnableUpdateResourceKey off, ElasticQuotaGuaranteeUsage off)",
         "no force-update / tree-root labels, so the min-sum clause has no exemption",
         "old object passed to update/delete is the last admitted object (API-server semantics)",
